@@ -557,7 +557,7 @@ func c17SQL(cfg *c17Cfg) string {
 }
 
 func c17ExecSQL(cfg *c17Cfg, rows []*c17Row) [][][]string {
-	s := streamsql.New(streamsql.WithDiscardLog())
+	s := streamsql.New(presetOpt(), streamsql.WithDiscardLog())
 	defer s.Stop()
 	if err := s.Execute(c17SQL(cfg)); err != nil {
 		return c17ErrObs(len(rows), err.Error())
